@@ -126,6 +126,18 @@ class CallGraph:
                 return cand
         return None
 
+    def resolve_class(self, short: str, name: str, hops: int = 3) -> pf.ClassFacts | None:
+        """Class named `name` in module `short`, following package re-exports."""
+        mf = pf.module_facts(self.ss, short)
+        if name in mf.classes:
+            return mf.classes[name]
+        if hops and name in mf.imports:
+            mod, attr = mf.imports[name]
+            s2 = self._module_short(mod)
+            if s2 and attr:
+                return self.resolve_class(s2, attr, hops - 1)
+        return None
+
     def class_of(self, ff: pf.FuncFacts) -> pf.ClassFacts | None:
         q = ff.qualname.split(".")[0]
         mf = pf.module_facts(self.ss, ff.module)
@@ -134,15 +146,7 @@ class CallGraph:
     def _class_from_expr(self, ff, e: ast.AST) -> pf.ClassFacts | None:
         """Class named by a constructor call expression `X(...)`."""
         if isinstance(e, ast.Call) and isinstance(e.func, ast.Name):
-            mf = pf.module_facts(self.ss, ff.module)
-            nm = e.func.id
-            if nm in mf.classes:
-                return mf.classes[nm]
-            if nm in mf.imports:
-                mod, attr = mf.imports[nm]
-                s = self._module_short(mod)
-                if s and attr:
-                    return pf.module_facts(self.ss, s).classes.get(attr)
+            return self.resolve_class(ff.module, e.func.id)
         return None
 
     def _sites(self, ff: pf.FuncFacts) -> list[CallSite]:
@@ -178,13 +182,7 @@ class CallGraph:
                         ext = f"super().{f.attr}"
                 elif isinstance(base, ast.Name) and (base.id in pf.module_facts(self.ss, ff.module).classes
                                                      or base.id in pf.module_facts(self.ss, ff.module).imports):
-                    mf = pf.module_facts(self.ss, ff.module)
-                    k = mf.classes.get(base.id)
-                    if k is None:
-                        mod, attr = mf.imports[base.id]
-                        s = self._module_short(mod)
-                        if s and attr:
-                            k = pf.module_facts(self.ss, s).classes.get(attr)
+                    k = self.resolve_class(ff.module, base.id)
                     if k is not None:
                         m = self.find_method(k, f.attr)
                         if m is not None:
